@@ -461,7 +461,11 @@ type Comment implements Item { id: ID! text: String }
 GEN_QUERIES = """
 subscription Counter($step: Int) { counter(step: $step) { value at } }
 subscription Feed { feed { id ... on Post { title } ... on Comment { text } } }
+subscription Search($query: Int) { counter(step: $query) { value at } }
+subscription Vars($variables: Int) { counter(step: $variables) { value at } }
 """
+GEN_CALLS = {"counter": ({"step": 2}, {"step": 2}), "feed": ({}, None), "search": ({"query": 2}, {"query": 2}),
+             "vars": ({"variables": 3}, {"variables": 3})}
 
 
 def run_generated(case, scratch):
@@ -484,11 +488,14 @@ def run_generated(case, scratch):
     payloads = {
         "counter": [{"counter": {"value": 1, "at": None}}, {"counter": {"value": 2, "at": "x"}}],
         "feed": [{"feed": [{"__typename": "Post", "id": "1", "title": "t"}, {"__typename": "Comment", "id": "2", "text": None}]}, {"feed": None}],
+        "search": [{"counter": {"value": 5, "at": None}}], "vars": [{"counter": {"value": 6, "at": "y"}}],
     }
     scripts = [
         ("counter", ["ack", "next", "ping", "next", "complete"]), ("feed", ["ack", "next", "next", "complete"]),
         ("counter", ["ack", "next", "error"]), ("feed", ["ack", "ping", "nonjson"]), ("counter", ["next"]),
         ("counter", ["ack", "badnext"]),
+        # variables named like the method's own locals (the generator renames its locals, not the caller's arguments)
+        ("search", ["ack", "next", "complete"]), ("vars", ["ack", "next", "complete"]),
     ]
     for tracer in ([None] if not case["otel"] else [None, "noop", "rec"]):
         for opname, kinds in scripts:
@@ -518,7 +525,7 @@ def run_generated(case, scratch):
 
             async def main():
                 method = getattr(client, opname)
-                async for item in (method(step=2) if opname == "counter" else method()):
+                async for item in method(**GEN_CALLS[opname][0]):
                     got.append(item)
 
             try:
@@ -542,8 +549,9 @@ def run_generated(case, scratch):
                 if dumped != expected or not all(isinstance(g, pydantic.BaseModel) for g in got):
                     failures.append({"clause": "generated_yield", "sig": "", "msg": f"{label}: yielded {dumped} expected {expected}"})
                 sub = [json.loads(x) for x in fake.sent if json.loads(x).get("type") == "subscribe"]
-                want_vars = {"step": 2} if opname == "counter" else None
-                if len(sub) != 1 or sub[0]["payload"].get("variables") != want_vars or sub[0]["payload"].get("operationName") != opname.capitalize():
+                want_vars = GEN_CALLS[opname][1]
+                if len(sub) != 1 or sub[0]["payload"].get("variables") != want_vars or sub[0]["payload"].get("operationName") != opname.capitalize() \
+                        or f"subscription {opname.capitalize()}" not in str(sub[0]["payload"].get("query")):
                     failures.append({"clause": "generated_subscribe", "sig": "", "msg": f"{label}: subscribe frames {sub}"})
             nts.append(f"generated:{case['otel']}:{tracer}:{opname}:{'-'.join(kinds)}")
     return {"failures": failures[:4], "units": units, "nt": nts, "features": ["generated_subscription"],
